@@ -3,7 +3,7 @@ SPECIFICATION Spec
 CONSTANTS
   NB = 2
   MaxRogue = 1
-  RogueKinds = {"wrongId", "otherId", "close"}
+  RogueKinds = {"wrongId", "otherId", "badGreeting", "close"}
   MaxMsgs = 0
   Mode = "standard"
   Bug = {}
